@@ -47,7 +47,7 @@ const c11EnumOps = 15
 const c11SweepOp = 15
 
 var (
-	c11Shapes = []string{"single", "alternative", "body+attachment", "body+embed", "attachment-only", "preformatted-and-many-generic-headers", "smime-single", "smime+attachment", "two-attachments-only", "body-writer+file-writer (switchable source fault)", "caller-fixed boundary: alternative+attachment (nested multiparts)", "caller-fixed boundary: S/MIME alternative+attachment"}
+	c11Shapes = []string{"single", "alternative", "body+attachment", "body+embed", "attachment-only", "preformatted-and-many-generic-headers", "smime-single", "smime+attachment", "two-attachments-only", "body-writer+file-writer (switchable source fault)", "caller-fixed boundary: alternative+attachment (nested multiparts)", "caller-fixed boundary: S/MIME alternative+attachment", "single body with a transfer encoding outside go-mail's constants (binary)", "PGP/MIME encrypted (WithPGPType, two caller-supplied parts)", "PGP/MIME signed (SetPGPType, body + detached signature part)"}
 	c11Srcs   = []string{"reader", "readseeker", "file", "fs.FS", "text-template", "reader(*bytes.Reader, partially consumed)", "reader(*strings.Reader)", "readseeker(partially consumed)", "reader(*os.File)"}
 	c11Ops    = []string{"WriteTo", "Write", "NewReader", "UpdateReader", "WriteToFile", "WriteToTempFile", "Send", "WriteTo(sink fails at 0)", "WriteTo(sink fails mid-way)",
 		"WriteTo(while the content source fails)", "NewReader(while the content source fails)", "UpdateReader(while the content source fails)", "Send(while the content source fails)", "NewReader(only 64 bytes read)", "NewReader(copied into a failing sink)", "WriteTo(sink fails at byte K)"}
@@ -88,7 +88,20 @@ func c11Build(cfg c11Cfg, dir string) (*mail.Msg, error) {
 		}
 	}
 	shape := cfg.Shape
-	if shape != 4 && shape != 8 && shape != 9 {
+	if shape == 13 || shape == 14 {
+		// the caller supplies the parts of a PGP/MIME message; go-mail only provides the multipart around them
+		if shape == 13 {
+			m.SetPGPType(mail.PGPEncrypt)
+			m.SetBodyString(mail.ContentType("application/pgp-encrypted"), "Version: 1\r\n", mail.WithPartEncoding(mail.EncodingUSASCII))
+			m.AddAlternativeString(mail.ContentType("application/octet-stream"), "-----BEGIN PGP MESSAGE-----\r\n\r\nhQEMA5kq0wXSPBQPAQf+armoured\r\n-----END PGP MESSAGE-----\r\n", mail.WithPartEncoding(mail.EncodingUSASCII))
+		} else {
+			m.SetPGPType(mail.PGPSignature)
+			m.SetBodyString(mail.TypeTextPlain, "signed body\r\n")
+			m.AddAlternativeString(mail.ContentType("application/pgp-signature"), "-----BEGIN PGP SIGNATURE-----\r\n\r\niQEzBAABCAAdFiEE\r\n-----END PGP SIGNATURE-----\r\n", mail.WithPartEncoding(mail.EncodingUSASCII))
+		}
+	} else if shape == 12 {
+		m.SetBodyString(mail.TypeTextPlain, "plain body\r\nwith = and .dot\r\n", mail.WithPartEncoding(mail.Encoding("binary")))
+	} else if shape != 4 && shape != 8 && shape != 9 {
 		m.SetBodyString(mail.TypeTextPlain, "plain body\r\nwith = and .dot\r\n")
 	}
 	if shape == 1 || shape == 10 || shape == 11 {
@@ -449,7 +462,7 @@ func init() {
 	vf.Register(&vf.Check{
 		ID: "C11", Title: "rendering is repeatable and all output paths agree",
 		Run: func(r *vf.Run) {
-			r.SetRule("message shapes {single, alternative, body+attachment, body+embed, attachment-only, two attachments only, three preformatted headers next to a dozen generic headers (custom X- fields, importance, bulk, organisation), S/MIME single, S/MIME+attachment, nested multiparts with a caller-fixed boundary (plain and S/MIME)} × file source {io.Reader (buffer, *bytes.Reader partially consumed, *strings.Reader, *os.File), read-seeker (fresh and partially consumed), file, fs.FS, text template} × file encoding {base64, 8bit, QP} × ALL sequences of length 2..L (at length 4 without the two thin wrappers Write / WriteToTempFile) over the 9 render operations {WriteTo, Write, NewReader, UpdateReader, WriteToFile, WriteToTempFile, Send (server commit log), WriteTo into a sink failing at 0, … failing mid-way, WriteTo / NewReader / UpdateReader / Send while the content source (body or file writer function) fails, a Reader of which only 64 bytes are read, a Reader copied into a failing destination} × map-iteration start 0..7 per operation (<=1 operation deviating from start 0; thorough <=2) through the runtime seam; Date, Message-ID and boundaries are generated by go-mail on first use; plus a failure-offset sweep per configuration: [WriteTo, WriteTo into a sink that starts failing at byte K, WriteTo, WriteTo] for EVERY K of the output × {short write, rejected write}; every successful output must equal the first; distinct by (configuration, operation sequence, map starts)")
+			r.SetRule("message shapes {single (also with a transfer encoding outside go-mail's constants), PGP/MIME encrypted and signed (caller-supplied parts), alternative, body+attachment, body+embed, attachment-only, two attachments only, three preformatted headers next to a dozen generic headers (custom X- fields, importance, bulk, organisation), S/MIME single, S/MIME+attachment, nested multiparts with a caller-fixed boundary (plain and S/MIME)} × file source {io.Reader (buffer, *bytes.Reader partially consumed, *strings.Reader, *os.File), read-seeker (fresh and partially consumed), file, fs.FS, text template} × file encoding {base64, 8bit, QP} × ALL sequences of length 2..L (at length 4 without the two thin wrappers Write / WriteToTempFile) over the 9 render operations {WriteTo, Write, NewReader, UpdateReader, WriteToFile, WriteToTempFile, Send (server commit log), WriteTo into a sink failing at 0, … failing mid-way, WriteTo / NewReader / UpdateReader / Send while the content source (body or file writer function) fails, a Reader of which only 64 bytes are read, a Reader copied into a failing destination} × map-iteration start 0..7 per operation (<=1 operation deviating from start 0; thorough <=2) through the runtime seam; Date, Message-ID and boundaries are generated by go-mail on first use; plus a failure-offset sweep per configuration: [WriteTo, WriteTo into a sink that starts failing at byte K, WriteTo, WriteTo] for EVERY K of the output × {short write, rejected write}; every successful output must equal the first; distinct by (configuration, operation sequence, map starts)")
 			r.Assume("map iteration order is owned through a runtime build-overlay seam (start offset 0..7 for maps of <= 8 entries)", "for S/MIME the per-render outer boundary and signature value are excluded: the signed entity and the remaining top-level fields are compared",
 				"Send output compares modulo the transport's final CRLF", "8bit file content with bare LF/CR compares modulo line-break canonicalisation across the Send path (the dot-writer canonicalises it; such content is illegal on the wire)")
 			if !mapseam.Enabled {
